@@ -88,7 +88,8 @@ DECIDING = ['numqi.matrix_space._misc.get_matrix_orthogonal_basis', 'numqi.matri
             'numqi.matrix_space._numerical_range.get_matrix_numerical_range',
             'numqi.matrix_space._numerical_range.get_real_bipartite_numerical_range',
             'basis/span', 'planted/hierarchy', 'planted/rank_one', 'planted/tripartite', 'numerical_range/attained',
-            'bipartite_range/bound-vs-product']
+            'bipartite_range/bound-vs-product', 'argument-unchanged', 'history/stale-after-inplace-update', 'history/stale-after-result-edit',
+            'history/aliasing', 'history/layout-dependent', 'history/call-order-dependent']
 
 TOL_ORTH = 1e-9
 TOL_SPAN_FLOOR = 1e-10
@@ -123,6 +124,8 @@ def shards(tier, seed):
                     'max_index': 400 if q else 700})
     for i in range(1 if q else 3):
         ret.append({'name': f'numrange-{i}', 'kind': 'numrange', 'n': 150 if q else 1200})
+    for i in range(1 if q else 3):
+        ret.append({'name': f'history-{i}', 'kind': 'history', 'part': i})
     if not q:
         ret.append({'name': 'repo-tests', 'kind': 'repo-tests'})
     for s in ret:
@@ -130,7 +133,7 @@ def shards(tier, seed):
         # budget stops generating random cases and records extra['truncated']; directed / corner cases always run first
         s.setdefault('budget_s', 45 if q else 240)
     # heavy shards first, so that they do not form the tail of the run
-    weight = {'hier': 3, 'tripartite': 4, 'repo-tests': 2}
+    weight = {'hier': 3, 'tripartite': 4, 'repo-tests': 2, 'history': 2}
     ret.sort(key=lambda s: -(weight.get(s['kind'], 0) * 10 + s.get('k', 0)))
     return ret
 
@@ -172,16 +175,54 @@ def _is_bool(x):
 
 
 # ----------------------------------------------------------------------------------------------- monitors
+def _snapshot(x):
+    if isinstance(x, (list, tuple)):
+        return [np.array(np.asarray(t), copy=True) for t in x]
+    return np.array(np.asarray(x), copy=True)
+
+
+def _same_content(x, snap):
+    try:
+        if isinstance(snap, list):
+            return isinstance(x, (list, tuple)) and len(x) == len(snap) and all(
+                np.asarray(a).shape == b.shape and np.array_equal(np.asarray(a), b) for a, b in zip(x, snap))
+        x = np.asarray(x)
+        return x.shape == snap.shape and bool(np.array_equal(x, snap))
+    except Exception:
+        return False
+
+
 def install(ctx, numqi):
     ms = numqi.matrix_space
+
+    def pre_arg0(name):
+        # the argument as it was when the call was made: every clause is judged against this snapshot, and the argument must
+        # still hold exactly these values when the call returns
+        return lambda c: _snapshot(c.arg(0, name))
+
+    def at_call(c, name, fn):
+        x = c.arg(0, name)
+        if c.snap is None:
+            return np.asarray(x) if not isinstance(x, (list, tuple)) else np.stack([np.asarray(t) for t in x])
+        ctx.check(_same_content(x, c.snap), f'{fn}/mutates-argument', f'{fn}: the array argument was modified by the call',
+                  lambda: {'before': c.snap if not isinstance(c.snap, list) else c.snap[:2], 'after': x if not isinstance(x, (list, tuple)) else list(x)[:2]},
+                  point='argument-unchanged')
+        if isinstance(c.snap, list):
+            try:
+                return np.stack(c.snap)
+            except Exception:
+                return None
+        return c.snap
 
     # ---------------------------------------------------------------- get_matrix_orthogonal_basis
     def post_basis(c):
         if c.exc is not None:
             return
-        mats = np.asarray(c.arg(0, 'matrix_subspace'))
+        mats = at_call(c, 'matrix_subspace', 'basis')
         field = c.arg(1, 'field')
         res = c.result
+        if mats is None:
+            return
         ok = isinstance(res, tuple) and len(res) == 3 and isinstance(res[2], str) and res[2] in rm.CLASSES
         ctx.check(ok, 'basis/return-form', 'get_matrix_orthogonal_basis must return (basis, complement, class name)',
                   {'type': type(res).__name__, 'class': repr(res[2]) if isinstance(res, tuple) and len(res) == 3 else None})
@@ -276,13 +317,15 @@ def install(ctx, numqi):
                           lambda: wit(rank=rk))
                 _worst(ctx, 'complement_worst_inner', cls, max(cb, cg))
 
-    ctx.attach(ms._misc, 'get_matrix_orthogonal_basis', post=post_basis)
+    ctx.attach(ms._misc, 'get_matrix_orthogonal_basis', post=post_basis, pre=pre_arg0('matrix_subspace'))
 
     # ---------------------------------------------------------------- has_rank_hierarchical_method
     def post_hier(c):
         if c.exc is not None:
             return
-        space = np.asarray(c.arg(0, 'matrix_subspace'))
+        space = at_call(c, 'matrix_subspace', 'hierarchy')
+        if space is None:
+            return
         rank = c.arg(1, 'rank')
         k = c.arg(2, 'hierarchy_k', 1)
         res = c.result
@@ -322,7 +365,7 @@ def install(ctx, numqi):
                   + (' (the planted element has a coefficient < %g on one of the handed basis vectors)' % SMALL_COEFF if small else ''),
                   wit, point='planted/hierarchy')
 
-    ctx.attach(ms._hierarchy, 'has_rank_hierarchical_method', post=post_hier)
+    ctx.attach(ms._hierarchy, 'has_rank_hierarchical_method', post=post_hier, pre=pre_arg0('matrix_subspace'))
 
     # ---------------------------------------------------------------- is_ABC_completely_entangled_subspace
     def post_abc(c):
@@ -332,9 +375,8 @@ def install(ctx, numqi):
         res = c.result
         if not ctx.check(_is_bool(res), 'tripartite/return-type', 'is_ABC_completely_entangled_subspace must return a bool', {'type': type(res).__name__}):
             return
-        try:
-            space = np.stack([np.asarray(x) for x in c.arg(0, 'np_list')])
-        except Exception:
+        space = at_call(c, 'np_list', 'tripartite')
+        if space is None:
             return
         lab = REG.get(_dg(space))
         if lab is None or lab['kind'] != 'product':
@@ -352,13 +394,15 @@ def install(ctx, numqi):
                            'smallest_coefficient_of_planted_vector_in_basis': lab['min_coeff'], 'basis': space, 'factors': lab['factors']},
                   point='planted/tripartite')
 
-    ctx.attach(ms._hierarchy, 'is_ABC_completely_entangled_subspace', post=post_abc)
+    ctx.attach(ms._hierarchy, 'is_ABC_completely_entangled_subspace', post=post_abc, pre=pre_arg0('np_list'))
 
     # ---------------------------------------------------------------- get_real_bipartite_numerical_range
     def post_bipartite(c):
         if c.exc is not None:
             return
-        mat = np.asarray(c.arg(0, 'mat'))
+        mat = at_call(c, 'mat', 'bipartite_range')
+        if mat is None:
+            return
         kind = c.arg(1, 'kind', 'min')
         method = c.arg(2, 'method', 'eigen')
         if method != 'eigen' or mat.ndim != 4 or kind not in ('min', 'max'):
@@ -392,13 +436,15 @@ def install(ctx, numqi):
             _worst(ctx, 'bipartite_gap(best_product-bound)/scale', 'min:min', (val - ret) / sc, 'min')
             _worst(ctx, 'bipartite_gap(best_product-bound)/scale', 'min:max', (val - ret) / sc, 'max')
 
-    ctx.attach(ms._numerical_range, 'get_real_bipartite_numerical_range', post=post_bipartite)
+    ctx.attach(ms._numerical_range, 'get_real_bipartite_numerical_range', post=post_bipartite, pre=pre_arg0('mat'))
 
     # ---------------------------------------------------------------- detect_real_matrix_subspace_rank_one
     def post_detect(c):
         if c.exc is not None:
             return
-        space = np.asarray(c.arg(0, 'matrix_subspace'))
+        space = at_call(c, 'matrix_subspace', 'rank_one_detector')
+        if space is None:
+            return
         res = c.result
         ok = isinstance(res, tuple) and len(res) == 2 and _is_bool(res[0])
         if ok:
@@ -432,13 +478,15 @@ def install(ctx, numqi):
         ctx.check(ub >= val - TOL_RANGE, 'rank_one_detector/bound-below-planted-value',
                   'the returned upper bound is smaller than <x(x)y|P|x(x)y> of the planted product vector', lambda: dict(w(), planted_value=val))
 
-    ctx.attach(ms._numerical_range, 'detect_real_matrix_subspace_rank_one', post=post_detect)
+    ctx.attach(ms._numerical_range, 'detect_real_matrix_subspace_rank_one', post=post_detect, pre=pre_arg0('matrix_subspace'))
 
     # ---------------------------------------------------------------- get_matrix_numerical_range
     def post_numrange(c):
         if c.exc is not None:
             return
-        A = np.asarray(c.arg(0, 'matA'))
+        A = at_call(c, 'matA', 'numerical_range')
+        if A is None:
+            return
         npt = c.arg(1, 'num_point', 100)
         pts = np.asarray(c.result)
         ok = pts.shape == (npt,) and bool(np.all(np.isfinite(pts)))
@@ -464,7 +512,7 @@ def install(ctx, numqi):
         _worst(ctx, 'numerical_range_worst', 'support_gap_rel', gap)
         _worst(ctx, 'numerical_range_worst', 'outside_rel', out)
 
-    ctx.attach(ms._numerical_range, 'get_matrix_numerical_range', post=post_numrange)
+    ctx.attach(ms._numerical_range, 'get_matrix_numerical_range', post=post_numrange, pre=pre_arg0('matA'))
 
 
 # ----------------------------------------------------------------------------------------------- producers of ghost labels
@@ -976,6 +1024,398 @@ def run_numrange(ctx, numqi, shard):
                 ms.get_matrix_numerical_range(A, num_point=17)
 
 
+# ----------------------------------------------------------------------------------------------- histories, call order, layouts
+_FAILED = object()
+
+FN_KEYS = ('basis', 'hierarchy', 'tripartite', 'rank_one_detector', 'numerical_range', 'bipartite_range')
+
+
+def _span_projector(cls, x):
+    v = rm.coords(cls, np.asarray(x))
+    if v.shape[0] == 0:
+        return np.zeros((v.shape[1], v.shape[1]))
+    q = rm.onb(v)
+    return q.conj().T @ q
+
+
+def answers_agree(fn, r1, r2, extra=None):
+    """do two answers of the same function for the same VALUES agree (up to what the contract leaves free)?"""
+    if r1 is _FAILED or r2 is _FAILED:
+        return r1 is r2
+    if fn in ('hierarchy', 'tripartite'):
+        return _is_bool(r1) and _is_bool(r2) and bool(r1) == bool(r2)
+    if fn == 'rank_one_detector':
+        return bool(r1[0]) == bool(r2[0]) and abs(float(r1[1]) - float(r2[1])) <= 1e-9
+    if fn == 'bipartite_range':
+        return abs(float(r1) - float(r2)) <= 1e-9 * max(1.0, abs(float(r1)))
+    if fn == 'numerical_range':
+        a, b = np.asarray(r1), np.asarray(r2)
+        if a.shape != b.shape:
+            return False
+        th = np.linspace(0, 2 * np.pi, len(a))
+        pa, pb = (np.exp(1j * th) * a).real, (np.exp(1j * th) * b).real   # support values are unique, the points are not
+        return bool(np.abs(pa - pb).max() <= (extra or 1e-9) * max(1.0, float(np.abs(a).max())))
+    if fn == 'basis':
+        if r1[2] != r2[2] or np.shape(r1[0]) != np.shape(r2[0]) or np.shape(r1[1]) != np.shape(r2[1]):
+            return False
+        for i in (0, 1):
+            if np.abs(_span_projector(r1[2], r1[i]) - _span_projector(r2[2], r2[i])).max() > 1e-8:
+                return False
+        return True
+    raise ValueError(fn)
+
+
+def _brief(r):
+    if r is _FAILED:
+        return 'raised'
+    if isinstance(r, tuple) and len(r) == 3:
+        return {'class': r[2], 'dim': int(np.shape(r[0])[0]), 'codim': int(np.shape(r[1])[0])}
+    if isinstance(r, tuple):
+        return [bool(r[0]), float(r[1])]
+    if _is_bool(r):
+        return bool(r)
+    return r
+
+
+def run_history(ctx, numqi, shard):
+    """histories on one object / in one process: refilled work buffers and lists, an argument that gets the id of a freed one,
+    edited results, the same configurations in two call orders, memory layouts and dtypes of the same values.
+    Every call is also judged by the ordinary postconditions (against the argument's content at call time)."""
+    ms = numqi.matrix_space
+    rng = ctx.rng
+    quick = ctx.tier == 'quick'
+    part = shard.get('part', 0)
+
+    def call(fn, f, *a, **kw):
+        ret = [_FAILED]
+        with ctx.guard(fn):
+            ret[0] = f(*a, **kw)
+        return ret[0]
+
+    def relate(cond_fn, fn, key, what, r_got, r_ref, desc):
+        ok = answers_agree(cond_fn, r_got, r_ref)
+        ctx.check(ok, f'{fn}/{key}', what, lambda: dict(desc, got=_brief(r_got), reference=_brief(r_ref)), point=f'history/{key}')
+        return ok
+
+    # ------------------------------------------------------------------ (1) container reuse for the three certificates
+    ctx.workload('history')
+    tri_cfg = [((2, 2, 3), 3), ((2, 3, 3), 3), ((3, 3, 3), 4), ((2, 2, 2), 2), ((2, 2, 2), 3), ((2, 2, 4), 5)]
+    hier_cfg = [(3, 3, 1, 2), (3, 4, 1, 3), (4, 4, 1, 4), (4, 4, 2, 2), (2, 2, 1, 1), (3, 5, 2, 2)]
+    det_cfg = [(2, 2, 1), (2, 3, 1), (3, 3, 2), (3, 4, 2), (4, 4, 3), (2, 5, 2)]
+    kmax = 2 if quick else 3
+    reps = 1 if quick else 3
+    idreuse = 0
+    for rep in range(reps):
+        for ci in range(6):
+            for fam in ('tripartite', 'hierarchy', 'rank_one_detector'):
+                if ctx.time_left() < 8:
+                    ctx.extra['truncated'] = True
+                    break
+                cplx = bool((ci + rep + part) % 2) and fam != 'rank_one_detector'
+                k = 1 + (ci + rep) % kmax
+                k_other = 1 + (k % kmax)
+                if fam == 'tripartite':
+                    dims, N = tri_cfg[ci]
+                    X = rm.random_subspace(rng, dims, N, cplx)
+                    Y, planted, vecs, _ = rm.planted_product(rng, dims, N, cplx)
+                    if label_product(ctx, Y, planted, vecs, cplx) is None:
+                        continue
+                    f = lambda sp, kk: ms.is_ABC_completely_entangled_subspace(sp, hierarchy_k=kk)
+                    containers = ('ndarray', 'list', 'id-reuse')
+                elif fam == 'hierarchy':
+                    dA, dB, pr, N = hier_cfg[ci]
+                    X = rm.random_subspace(rng, (dA, dB), N, cplx)
+                    Y, planted, _ = rm.planted_low_rank(rng, dA, dB, pr, N, cplx)
+                    if label_lowrank(ctx, Y, planted, cplx) is None:
+                        continue
+                    f = lambda sp, kk, r=pr + 1: ms.has_rank_hierarchical_method(sp, rank=r, hierarchy_k=kk)
+                    containers = ('ndarray', 'list', 'id-reuse')
+                else:
+                    dA, dB, N = det_cfg[ci]
+                    X = rm.random_subspace(rng, (dA, dB), N, False)
+                    Y, planted, _ = rm.planted_low_rank(rng, dA, dB, 1, N, False)
+                    if label_lowrank(ctx, Y, planted, False) is None:
+                        continue
+                    f = lambda sp, kk: ms.detect_real_matrix_subspace_rank_one(sp)
+                    containers = ('ndarray', 'id-reuse')
+                    k = k_other = 1
+                X = np.ascontiguousarray(X)
+                Y = np.ascontiguousarray(Y)
+                for order in ('generic-then-planted', 'planted-then-generic'):
+                    first, second = (X, Y) if order == 'generic-then-planted' else (Y, X)
+                    for container in containers:
+                        for k2 in sorted({k, k_other}):
+                            desc = {'op': 'history/container-reuse', 'function': fam, 'order': order, 'container': container,
+                                    'shape': list(X.shape), 'complex': cplx, 'k_first': k, 'k_second': k2}
+                            ctx.set_case(desc)
+                            ctx.case('history', fam, order, container, first, second, k, k2, nontrivial=True,
+                                     sample=desc if (ci == 0 and rep == 0 and container == 'ndarray' and order == 'generic-then-planted' and k2 == k) else None)
+                            if container == 'ndarray':
+                                buf = first.copy()
+                                call(fam, f, buf, k)
+                                buf[...] = second
+                                r2 = call(fam, f, buf, k2)
+                            elif container == 'list':
+                                lst = list(first.copy())
+                                call(fam, f, lst, k)
+                                lst[:] = list(second.copy())
+                                r2 = call(fam, f, lst, k2)
+                            else:
+                                a = first.copy()
+                                call(fam, f, a, k)
+                                ida = id(a)
+                                del a
+                                b = second.copy()
+                                idreuse += int(id(b) == ida)
+                                r2 = call(fam, f, b, k2)
+                            fresh = call(fam, f, np.array(second, copy=True), k2)
+                            relate(fam, fam, 'stale-after-inplace-update',
+                                   f'{fam}: the answer for a container that was refilled with other values (or re-uses the id of a freed '
+                                   'argument) differs from the answer for a fresh copy of the same values', r2, fresh, desc)
+    ctx.extra['id_reused_by_new_argument'] = idreuse
+
+    # ------------------------------------------------------------------ (2) work buffers and edited results: basis, numerical ranges
+    for ci, combo in enumerate(rm.COMBOS):
+        if ctx.time_left() < 8:
+            break
+        cls, dt, field = combo
+        m = 2 + (ci + part) % 3
+        n = m if cls in ('R_T', 'C_T', 'C_H', 'R_cT') else 2 + (ci + 1) % 4
+        D = rm.ambient_dim(cls, m, n)
+        k1, k2 = max(1, D // 2), max(1, D - 1)
+        g1 = rm.structured_generators(rng, combo, m, n, k1, D + 1)
+        g2 = rm.structured_generators(rng, combo, m, n, k2, D + 1)
+        desc = {'op': 'history/work-buffer', 'function': 'basis', 'combo': list(combo), 'm': m, 'n': n, 'dims': [k1, k2]}
+        ctx.set_case(desc)
+        ctx.case('history-basis', g1, g2, field, nontrivial=True)
+        f = lambda g: ms.get_matrix_orthogonal_basis(g, field)
+        buf = g1.copy()
+        r1 = call('basis', f, buf)
+        buf[...] = g2
+        r2 = call('basis', f, buf)
+        fresh = call('basis', f, g2.copy())
+        relate('basis', 'basis', 'stale-after-inplace-update', 'basis of a refilled work buffer differs from the basis of a fresh copy of the same generators',
+               r2, fresh, desc)
+        if r1 is not _FAILED and r2 is not _FAILED:
+            alias = any(np.shares_memory(np.asarray(r1[i]), np.asarray(r2[j])) for i in (0, 1) for j in (0, 1) if np.size(r1[i]) and np.size(r2[j]))
+            ctx.check(not alias, 'basis/result-aliases-earlier-call', 'result arrays of two calls share memory', desc, point='history/aliasing')
+            alias = any(np.shares_memory(np.asarray(r2[j]), buf) for j in (0, 1) if np.size(r2[j]))
+            ctx.check(not alias, 'basis/result-aliases-argument', 'a result array shares memory with the argument', desc)
+            for j in (0, 1):       # the caller edits the result in place, then asks again
+                if isinstance(r2[j], np.ndarray) and r2[j].flags.writeable:
+                    r2[j][...] = 7.0
+            ctx.check(np.array_equal(buf, g2), 'basis/result-aliases-argument', 'editing the result changed the argument', desc)
+            r3 = call('basis', f, buf)
+            relate('basis', 'basis', 'stale-after-result-edit', 'after the caller overwrote the returned arrays, a new call with the same argument returns something else',
+                   r3, fresh, desc)
+    for ci in range(8 if quick else 24):
+        if ctx.time_left() < 8:
+            break
+        d = 2 + (ci + part) % 7
+        kinds = ['nonnormal', 'hermitian', 'normal', 'real-nonnormal']
+        A1 = np.asarray(rm.rand_square(rng, d, kinds[ci % 4]), dtype=np.complex128)
+        A2 = np.asarray(rm.rand_square(rng, d, kinds[(ci + 1) % 4]), dtype=np.complex128)
+        npt = [7, 33][ci % 2]
+        desc = {'op': 'history/work-buffer', 'function': 'numerical_range', 'size': d, 'num_point': npt}
+        ctx.set_case(desc)
+        ctx.case('history-numrange', A1, A2, npt, nontrivial=True)
+        f = lambda A: ms.get_matrix_numerical_range(A, num_point=npt)
+        buf = A1.copy()
+        r1 = call('numerical_range', f, buf)
+        buf[...] = A2
+        r2 = call('numerical_range', f, buf)
+        fresh = call('numerical_range', f, A2.copy())
+        relate('numerical_range', 'numerical_range', 'stale-after-inplace-update', 'numerical range of a refilled buffer differs from that of a fresh copy', r2, fresh, desc)
+        if r1 is not _FAILED and r2 is not _FAILED and isinstance(r2, np.ndarray):
+            ctx.check(not np.shares_memory(r1, r2), 'numerical_range/result-aliases-earlier-call', 'result arrays of two calls share memory', desc, point='history/aliasing')
+            r2[...] = 0
+            ctx.check(np.array_equal(buf, A2), 'numerical_range/result-aliases-argument', 'editing the result changed the argument', desc)
+            r3 = call('numerical_range', f, buf)
+            relate('numerical_range', 'numerical_range', 'stale-after-result-edit', 'new call after the result was overwritten returns something else', r3, fresh, desc)
+        # real bipartite range on the same kind of history
+        dA, dB = [(2, 2), (2, 3), (3, 3), (2, 4)][ci % 4]
+        D = dA * dB
+        Ms = []
+        for _ in range(2):
+            M = rng.normal(size=(D, D))
+            Ms.append(np.ascontiguousarray(((M + M.T) / 2).reshape(dA, dB, dA, dB)))
+        for kind in ('max', 'min'):
+            desc = {'op': 'history/work-buffer', 'function': 'bipartite_range', 'dA': dA, 'dB': dB, 'kind': kind}
+            ctx.set_case(desc)
+            ctx.case('history-bipartite', Ms[0], Ms[1], kind, nontrivial=True)
+            f = lambda M: ms.get_real_bipartite_numerical_range(M, kind=kind)
+            buf = Ms[0].copy()
+            call('bipartite_range', f, buf)
+            buf[...] = Ms[1]
+            r2 = call('bipartite_range', f, buf)
+            fresh = call('bipartite_range', f, Ms[1].copy())
+            relate('bipartite_range', 'bipartite_range', 'stale-after-inplace-update', 'bound of a refilled buffer differs from that of a fresh copy', r2, fresh, desc)
+
+    # ------------------------------------------------------------------ (3) memory layout / dtype of the same values
+    ctx.workload('layout')
+
+    def layouts(V, with_complex, with_list):
+        out = {'fortran': np.asfortranarray(V)}
+        big = np.zeros(V.shape[:-1] + (2 * V.shape[-1],), dtype=V.dtype)
+        big[..., ::2] = V
+        out['strided-view'] = big[..., ::2]
+        big2 = np.zeros((V.shape[0] + 2,) + V.shape[1:], dtype=V.dtype)
+        big2[1:-1] = V
+        out['slice-of-larger'] = big2[1:-1]
+        out['reversed-axes-view'] = np.ascontiguousarray(V.T).T
+        if with_complex and not np.iscomplexobj(V):
+            out['complex-dtype'] = V.astype(np.complex128)
+        if with_list:
+            out['list'] = [np.array(x) for x in V]
+            out['list-of-views'] = list(out['fortran'])
+        return out
+
+    def layout_family(fn, f, V, with_complex, with_list, relabel=None, desc=None):
+        desc = dict(desc or {}, op='layout', function=fn, shape=list(V.shape), dtype=str(V.dtype))
+        ctx.set_case(desc)
+        ctx.case('layout', fn, V, desc.get('k'), nontrivial=True)
+        base = call(fn, f, np.ascontiguousarray(V))
+        for name, W in layouts(V, with_complex, with_list).items():
+            if relabel is not None and not isinstance(W, list) and W.dtype != V.dtype:
+                relabel(W)
+            ctx.set_case(dict(desc, layout=name))
+            r = call(fn, f, W)
+            relate(fn, fn, 'layout-dependent', f'{fn}: the answer depends on memory layout / container / dtype of the same values', r, base, dict(desc, layout=name))
+
+    for ci in range(6):
+        if ctx.time_left() < 8:
+            break
+        cplx = bool((ci + part) % 2)
+        k = 1 + ci % kmax
+        dims, N = tri_cfg[ci]
+        Y, planted, vecs, _ = rm.planted_product(rng, dims, N, cplx)
+        if label_product(ctx, Y, planted, vecs, cplx) is not None:
+            layout_family('tripartite', lambda sp: ms.is_ABC_completely_entangled_subspace(sp, hierarchy_k=k), Y, True, True,
+                          relabel=lambda W: label_product(ctx, W, planted, vecs, True), desc={'k': k, 'planted': True})
+        X = rm.random_subspace(rng, dims, N, cplx)
+        layout_family('tripartite', lambda sp: ms.is_ABC_completely_entangled_subspace(sp, hierarchy_k=k), X, True, True, desc={'k': k, 'planted': False})
+        dA, dB, pr, N = hier_cfg[ci]
+        Y, planted, _ = rm.planted_low_rank(rng, dA, dB, pr, N, cplx)
+        if label_lowrank(ctx, Y, planted, cplx) is not None:
+            layout_family('hierarchy', lambda sp: ms.has_rank_hierarchical_method(sp, rank=pr + 1, hierarchy_k=k), Y, True, True,
+                          relabel=lambda W: label_lowrank(ctx, W, planted, True), desc={'k': k, 'planted': True})
+        X = rm.random_subspace(rng, (dA, dB), N, cplx)
+        layout_family('hierarchy', lambda sp: ms.has_rank_hierarchical_method(sp, rank=pr + 1, hierarchy_k=k), X, True, True, desc={'k': k, 'planted': False})
+        dA, dB, N = det_cfg[ci]
+        Y, planted, _ = rm.planted_low_rank(rng, dA, dB, 1, N, False)
+        if label_lowrank(ctx, Y, planted, False) is not None:
+            layout_family('rank_one_detector', lambda sp: ms.detect_real_matrix_subspace_rank_one(sp), Y, False, False, desc={'planted': True})
+        X = rm.random_subspace(rng, (dA, dB), N, False)
+        layout_family('rank_one_detector', lambda sp: ms.detect_real_matrix_subspace_rank_one(sp), X, False, False, desc={'planted': False})
+    for ci, combo in enumerate(rm.COMBOS):
+        if ctx.time_left() < 8:
+            break
+        cls, dt, field = combo
+        m = 2 + (ci + part + 1) % 3
+        n = m if cls in ('R_T', 'C_T', 'C_H', 'R_cT') else 2 + ci % 4
+        D = rm.ambient_dim(cls, m, n)
+        g = rm.structured_generators(rng, combo, m, n, max(1, D - 1), D + 2)
+        # a real-valued generator list stored as complex keeps its class only when it is spanned over C
+        layout_family('basis', lambda G: ms.get_matrix_orthogonal_basis(G, field), g, field == 'complex', False, desc={'combo': list(combo)})
+    for ci in range(7):
+        if ctx.time_left() < 8:
+            break
+        d = 2 + ci
+        A = rm.rand_square(rng, d, ['real-nonnormal', 'nonnormal', 'hermitian'][ci % 3])
+        layout_family('numerical_range', lambda M: ms.get_matrix_numerical_range(M, num_point=9), A, True, False, desc={'size': d})
+        if ci < 4:
+            dA, dB = [(2, 2), (2, 3), (3, 3), (3, 2)][ci]
+            M = rng.normal(size=(dA * dB, dA * dB))
+            M4 = ((M + M.T) / 2).reshape(dA, dB, dA, dB)
+            for kind in ('max', 'min'):
+                layout_family('bipartite_range', lambda W: ms.get_real_bipartite_numerical_range(W, kind=kind), M4, False, False, desc={'kind': kind})
+    # integer-valued generators (matrix units are an orthonormal basis) and integer matrices
+    ctx.set_case({'op': 'layout', 'function': 'integer dtype'})
+    E = np.zeros((3, 3, 3), dtype=np.int64)
+    E[0, 0, 0] = E[1, 1, 1] = E[2, 0, 1] = 1
+    Ef = E.astype(np.float64)
+    if label_lowrank(ctx, Ef, Ef[0], False) is not None:
+        REG[_dg(E)] = REG[_dg(Ef)]
+        # hierarchy_k=1 only: for integer dtype and hierarchy_k>=2 numqi raises UFuncTypeError (in-place float scaling of an integer
+        # array in project_to_symmetric_basis): integer generators are not accepted there; not a certificate, outside the statement
+        for kk in (1,):
+            relate('hierarchy', 'hierarchy', 'layout-dependent', 'integer and float generators with the same values give different answers',
+                   call('hierarchy', lambda: ms.has_rank_hierarchical_method(E, rank=2, hierarchy_k=kk)),
+                   call('hierarchy', lambda: ms.has_rank_hierarchical_method(Ef, rank=2, hierarchy_k=kk)), {'k': kk})
+    G = rng.integers(-3, 4, size=(5, 3, 4))
+    for field in ('real', 'complex'):
+        relate('basis', 'basis', 'layout-dependent', 'integer and float generators with the same values give different bases',
+               call('basis', lambda: ms.get_matrix_orthogonal_basis(G, field)), call('basis', lambda: ms.get_matrix_orthogonal_basis(G.astype(np.float64), field)),
+               {'field': field})
+    Ai = rng.integers(-4, 5, size=(6, 6))
+    relate('numerical_range', 'numerical_range', 'layout-dependent', 'integer and float matrices with the same values give different ranges',
+           call('numerical_range', lambda: ms.get_matrix_numerical_range(Ai, num_point=9)),
+           call('numerical_range', lambda: ms.get_matrix_numerical_range(Ai.astype(np.float64), num_point=9)), {})
+
+    # ------------------------------------------------------------------ (4) the same configurations in two call orders in one process
+    ctx.workload('call-order')
+    jobs = []
+    for ci in range(6):
+        cplx = bool(ci % 2)
+        dims, N = tri_cfg[ci]
+        for planted_flag in (False, True):
+            if planted_flag:
+                Y, planted, vecs, _ = rm.planted_product(rng, dims, N, cplx)
+                if label_product(ctx, Y, planted, vecs, cplx) is None:
+                    continue
+            else:
+                Y = rm.random_subspace(rng, dims, N, cplx)
+            for kk in range(1, kmax + 1):
+                jobs.append(('tripartite', Y, lambda V, kk=kk: ms.is_ABC_completely_entangled_subspace(list(V), hierarchy_k=kk), {'dims': list(dims), 'N': N, 'k': kk}))
+        dA, dB, pr, N = hier_cfg[ci]
+        for planted_flag in (False, True):
+            if planted_flag:
+                Y, planted, _ = rm.planted_low_rank(rng, dA, dB, pr, N, cplx)
+                if label_lowrank(ctx, Y, planted, cplx) is None:
+                    continue
+            else:
+                Y = rm.random_subspace(rng, (dA, dB), N, cplx)
+            for kk in range(1, kmax + 1):
+                jobs.append(('hierarchy', Y, lambda V, kk=kk, r=pr + 1: ms.has_rank_hierarchical_method(V, rank=r, hierarchy_k=kk), {'dA': dA, 'dB': dB, 'N': N, 'k': kk}))
+        dA, dB, N = det_cfg[ci]
+        Y, planted, _ = rm.planted_low_rank(rng, dA, dB, 1, N, False)
+        if label_lowrank(ctx, Y, planted, False) is not None:
+            jobs.append(('rank_one_detector', Y, lambda V: ms.detect_real_matrix_subspace_rank_one(V), {'dA': dA, 'dB': dB, 'N': N}))
+        jobs.append(('rank_one_detector', rm.random_subspace(rng, (dA, dB), N, False), lambda V: ms.detect_real_matrix_subspace_rank_one(V), {'dA': dA, 'dB': dB, 'N': N}))
+    for ci, combo in enumerate(rm.COMBOS):
+        cls, dt, field = combo
+        for m in (2, 3):
+            n = m if cls in ('R_T', 'C_T', 'C_H', 'R_cT') else 5 - m
+            D = rm.ambient_dim(cls, m, n)
+            g = rm.structured_generators(rng, combo, m, n, max(1, D // 2), D)
+            jobs.append(('basis', g, lambda V, field=field: ms.get_matrix_orthogonal_basis(V, field), {'combo': list(combo), 'm': m, 'n': n}))
+    for d in range(2, 9):
+        A = rm.rand_square(rng, d, ['nonnormal', 'hermitian', 'normal'][d % 3])
+        jobs.append(('numerical_range', A, lambda V: ms.get_matrix_numerical_range(V, num_point=9), {'size': d}))
+    for dA, dB in [(2, 2), (2, 3), (3, 3), (3, 2)]:
+        M = rng.normal(size=(dA * dB, dA * dB))
+        M4 = ((M + M.T) / 2).reshape(dA, dB, dA, dB)
+        for kind in ('max', 'min'):
+            jobs.append(('bipartite_range', M4, lambda V, kind=kind: ms.get_real_bipartite_numerical_range(V, kind=kind), {'dA': dA, 'dB': dB, 'kind': kind}))
+    orders = [list(range(len(jobs))), list(range(len(jobs)))[::-1], [int(i) for i in rng.permutation(len(jobs))]]
+    results = {}
+    for oi, order in enumerate(orders):
+        for pos, ji in enumerate(list(order) + [order[0]]):       # one configuration is repeated at the end
+            if ctx.time_left() < 5:
+                ctx.extra['truncated'] = True
+                break
+            fn, V, f, d = jobs[ji]
+            desc = dict(d, op='call-order', function=fn, order=['as listed', 'reversed', 'shuffled'][oi], position=pos)
+            ctx.set_case(desc)
+            ctx.case('call-order', fn, V, d.get('k'), d.get('kind'), oi, pos == len(order), nontrivial=True)
+            r = call(fn, f, np.array(V, copy=True))
+            if ji in results:
+                relate(fn, fn, 'call-order-dependent', f'{fn}: the answer for the same values depends on what was called before in the process', r, results[ji], desc)
+            else:
+                results[ji] = r
+    ctx.extra['call_order_jobs'] = len(jobs)
+
+
 @contextlib.contextmanager
 def seeded_default_rng(ctx):
     """library / test code that asks for an unseeded np.random.default_rng() gets one derived from the shard's generator"""
@@ -1031,5 +1471,5 @@ def run(ctx, shard):
     install(ctx, numqi)
     kind = shard['kind']
     {'basis': run_basis, 'realistic': run_realistic, 'rank-one': run_rank_one, 'bipartite': run_bipartite, 'hier': run_hier,
-     'tripartite': run_tripartite, 'numrange': run_numrange, 'repo-tests': run_repo_tests}[kind](ctx, numqi, shard)
+     'tripartite': run_tripartite, 'numrange': run_numrange, 'repo-tests': run_repo_tests, 'history': run_history}[kind](ctx, numqi, shard)
     ctx.extra['labels_registered'] = len(REG)
